@@ -14,7 +14,7 @@ use serde_json::{json, Value};
 pub const META: Meta = Meta {
     id: "C03",
     level: "exploration",
-    rule: "Cases are (entity length L, Range header value) pairs: (a) every set of 1-2 specs (1-3 for L<=4) over all three spec forms with positions 0..=L+2 for L in 1..=8 [exhaustive]; (b) the boundary product L x positions from {0,1,L-1,L,L+1,2^32,2^63,2^64-2,2^64-1,2^64,10^25}, 1-2 specs exhaustive and 3 specs sampled; (c) proptest threshold sets aimed at the multipart/200 decision; (d) near-miss and garbage headers; (e) zero-padded spellings (widths up to 26) of every boundary position; (f) sets of 9 to 1500 small ranges of a large entity (the number of specs as a dimension; multipart mandatory). A third of the cases carry a strong ETag echoed in If-Range (same resolution demanded). Oracle: independent u128 resolver returning the set of outcomes the statement allows. Non-trivial = grammatical header whose resolution clamps, uses a suffix, drops a spec or yields several ranges, or a non-grammatical header; distinct by fingerprint of (L, header).",
+    rule: "Cases are (entity length L, Range header value) pairs: (a) every set of 1-2 specs (1-3 for L<=4) over all three spec forms with positions 0..=L+2 for L in 1..=8 [exhaustive]; (b) the boundary product L x positions from {0,1,L-1,L,L+1,2^32,2^63,2^64-2,2^64-1,2^64,10^25}, 1-2 specs exhaustive and 3 specs sampled; (c) proptest threshold sets aimed at the multipart/200 decision; (d) near-miss and garbage headers; (e) zero-padded spellings (widths up to 26) of every boundary position; (f) sets of 9 to 1500 small ranges of a large entity (the number of specs as a dimension; multipart mandatory). A third of the cases carry a strong ETag echoed in If-Range, about half another conditional header that is satisfied (If-Match *, If-None-Match other, dates): same resolution demanded. Oracle: independent u128 resolver returning the set of outcomes the statement allows. Non-trivial = grammatical header whose resolution clamps, uses a suffix, drops a spec or yields several ranges, or a non-grammatical header; distinct by fingerprint of (L, header).",
     assumptions: &[
         "harness entity honours the Entity contract (exact bytes, fused streams)",
         "lenient-but-RFC-grammatical forms (OWS before commas, empty list elements, unit in another case, last<first) may be either ignored or resolved; both are accepted; numbers of 2^64 and beyond make the header unparseable (200); zero-padded numbers that fit u64 are grammatical and must be resolved",
@@ -34,6 +34,11 @@ pub struct Case {
     /// resolved exactly as without If-Range)
     #[serde(default)]
     pub if_range: bool,
+    /// another conditional header that is satisfied / cannot apply (the Range must be resolved the
+    /// same): 1 If-Match: *, 2 If-None-Match: other tag, 3 If-Unmodified-Since later, 4
+    /// If-Modified-Since earlier
+    #[serde(default)]
+    pub noop: u8,
 }
 
 fn rel(x: u128, l: u64) -> &'static str {
@@ -87,8 +92,8 @@ fn outcome_name(o: &Outcome) -> &'static str {
 pub fn check(c: &Case, acc: &mut Acc) -> Check {
     let ent = EntitySpec {
         len: c.len,
-        etag: if c.if_range { Some(Bs::s("\"c03\"")) } else { None },
-        mtime: Mtime::None,
+        etag: if c.if_range || c.noop == 1 || c.noop == 2 { Some(Bs::s("\"c03\"")) } else { None },
+        mtime: if c.noop >= 3 { Mtime::At(reqgen::T0, 0) } else { Mtime::None },
         headers: c.headers.clone(),
         plan: if c.plan.is_empty() { vec![PStep::Rest] } else { c.plan.clone() },
         faults: vec![],
@@ -100,6 +105,13 @@ pub fn check(c: &Case, acc: &mut Acc) -> Check {
     let mut req = ReqSpec::get().with("range", &c.range.0);
     if c.if_range {
         req = req.with("if-range", "\"c03\"");
+    }
+    match c.noop {
+        1 => req = req.with("if-match", "*"),
+        2 => req = req.with("if-none-match", "\"zzz\", W/\"yyy\""),
+        3 => req = req.with("if-unmodified-since", reqgen::http_date(reqgen::T0 + 86_400)),
+        4 => req = req.with("if-modified-since", reqgen::http_date(reqgen::T0 - 86_400)),
+        _ => {}
     }
     // with a matching If-Range the parts do not repeat the entity's headers
     let hdr_bytes: usize = if c.if_range { 0 } else { c.headers.iter().map(|(k, v)| k.len() + v.0.len() + 4).sum() };
@@ -234,6 +246,7 @@ fn run_sets(cx: &Cx, phase: &str, l: u64, specs: &[String], max_n: usize, acc: &
             len: l,
             // a third of the enumerated sets also with a matching If-Range
             if_range: range.len() % 3 == 0,
+            noop: (range.len() % 5) as u8 * (range.len() % 2) as u8,
             range: Bs(range.into_bytes()),
             plan: vec![],
             headers: vec![],
@@ -322,6 +335,7 @@ fn near_miss_strategy() -> BoxedStrategy<Case> {
         Case {
             len: l.max(1),
             if_range: b.len() % 4 == 0,
+            noop: 0,
             range: Bs(b),
             plan: vec![],
             headers: vec![],
@@ -333,6 +347,7 @@ fn near_miss_strategy() -> BoxedStrategy<Case> {
         plan: vec![],
         headers: vec![],
         if_range: l % 3 == 0,
+        noop: (l % 5) as u8,
     });
     let arb = (reqgen::small_len_strategy(), reqgen::arbitrary_value()).prop_map(|(l, v)| Case {
         len: l.max(1),
@@ -340,6 +355,7 @@ fn near_miss_strategy() -> BoxedStrategy<Case> {
         plan: vec![],
         headers: vec![],
         if_range: false,
+        noop: 0,
     });
     prop_oneof![5 => edited, 2 => fixed, 2 => arb].boxed()
 }
@@ -386,6 +402,7 @@ fn threshold_strategy() -> BoxedStrategy<Case> {
             Case {
                 len: l,
                 if_range: v.len() % 3 == 0,
+                noop: (v.len() % 7) as u8 % 5,
                 range: Bs(v.into_bytes()),
                 plan,
                 headers,
@@ -407,6 +424,7 @@ fn random_strategy() -> BoxedStrategy<Case> {
         .prop_map(|(l, v, plan, headers)| Case {
             len: l,
             if_range: v.len() % 3 == 0,
+            noop: (v.len() % 7) as u8 % 5,
             range: Bs(v.into_bytes()),
             plan,
             headers,
@@ -434,7 +452,7 @@ pub fn run(cx: &Cx) -> Acc {
         for &p in boundary_positions(l).iter().filter(|p| **p <= u64::MAX as u128) {
             for w in [2usize, 19, 20, 21, 22, 26] {
                 for r in [format!("bytes={p:0w$}-"), format!("bytes=0-{p:0w$}"), format!("bytes=-{p:0w$}"), format!("bytes=0-0,{p:0w$}-{p:0w$}")] {
-                    let c = Case { len: l, range: Bs(r.into_bytes()), plan: vec![], headers: vec![], if_range: false };
+                    let c = Case { len: l, range: Bs(r.into_bytes()), plan: vec![], headers: vec![], if_range: false, noop: 0 };
                     acc.run_case(cx, "zero-padded", &c, |acc| check(&c, acc));
                 }
             }
@@ -453,6 +471,7 @@ pub fn run(cx: &Cx) -> Acc {
                 plan: vec![],
                 headers: vec![],
                 if_range: false,
+                noop: 0,
             }
         })
     }, |c, acc| check(c, acc)));
@@ -489,7 +508,7 @@ fn many_specs_strategy() -> BoxedStrategy<Case> {
                     _ => v.push_str(&format!("{a}-{}", a.saturating_add(w))),
                 }
             }
-            Case { len, range: Bs(v.into_bytes()), plan: vec![], headers: vec![], if_range: false }
+            Case { len, range: Bs(v.into_bytes()), plan: vec![], headers: vec![], if_range: false, noop: 0 }
         })
         .boxed()
 }
